@@ -48,7 +48,7 @@ def execute(spec, want=("C01",), keep_trace=False):
     try:
         sess = scen.Session(bdir(), seed=seed, relay=relay, tag="r%d" % seed, **spec.get("sess", {}))
         w = sess.w
-        if "C14" in want or "C16" in want or "state" in want:
+        if "C16" in want or "state" in want:
             w.dump_users = True
         hs = sess.handshake()
         res["stats"]["handshake"] = hs
@@ -63,6 +63,8 @@ def execute(spec, want=("C01",), keep_trace=False):
             relay.blackout = [(d, t0 + a * 1000, t0 + b * 1000) for d, a, b in spec["blackout_ms"]]
         relay.count = {"q": 0, "a": 0}
         relay.plan = {(d, n): f for d, n, f in spec.get("plan", [])}
+        relay.redeliver = {int(k): v for k, v in spec.get("redeliver", {}).items()}
+        relay.qhist = []
         rng = random.Random(seed * 7 + 1)
         frames = {}
         if hs:
@@ -219,3 +221,92 @@ def abs_c15(w, sess, frames, t0, hs_len, res):
 
 ABSTRACT["C14"] = abs_c14
 ABSTRACT["C15"] = abs_c15
+
+
+def _pos(u):
+    return list(u["in"][:3]) + list(u["out"][:4]) + [u["outq"]]
+
+
+def abs_c16(w, sess, frames, t0, hs_len, res):
+    """NewSession / AnsFirst / Redeliver events for MonRedelivery (needs w.dump_users)."""
+    evs = []
+    view = _sview(w, sess)
+    state = None          # last users[] dump
+    redeliv = {}
+    for e in w.trace:
+        if e["ev"] == "Deliver" and e.get("tag") and "redeliver_of" in e["tag"]:
+            redeliv[(e["dg"], e["data"])] = e["tag"]
+    cur = None            # the re-delivery being processed in this server step
+    outstanding = []      # deliveries not yet answered: dict(src,id,qn,tagged,step)
+    step = 0
+    last_first = None     # (step, u, qn) of the last AnsFirst, to fold the answer to a remembered duplicate
+    nred = 0
+    for r in view:
+        k = r["k"]
+        if k == "state":
+            if cur is not None:
+                u = cur["u"]
+                if u < len(r["users"]):
+                    cur["ev"]["pos1"] = _pos(r["users"][u])
+                    evs.append(cur["ev"])
+                    nred += 1
+                cur = None
+            state = r["users"]
+            step += 1
+        elif k == "recv" and not r["raw"] and r.get("dns"):
+            cls = r["cls"]
+            tag = redeliv.get((r["dg"], r["data"]))
+            if cls["kind"] in ("ping", "data"):
+                outstanding.append({"src": r["src"], "id": r["id"], "qn": r["qn"], "tagged": bool(tag), "step": step})
+            if tag and cls["kind"] in ("ping", "data") and state is not None:
+                u = cls["uid"] & 255
+                if u >= len(state):
+                    continue
+                st = state[u]
+                lk = wire.qn_str([l.lower() for l in r["labels"]])
+                held = []
+                for key in ("qname", "qrsname"):
+                    if st[key]:
+                        held.append(bytes.fromhex(st[key]).lower())
+                me = b".".join(r["labels"]).lower()
+                cur = {"u": u, "src": r["src"], "id": r["id"],
+                       "ev": {"e": "Redeliver", "u": u, "nm": r["qn"], "lk": lk, "kind": cls["kind"],
+                              "pending": me in held, "pos0": _pos(st), "pos1": [], "answered": False,
+                              "pl": "", "tag": "%s%s%s back=%d" % ("newid " if tag["newid"] else "",
+                                                                   "flip " if tag["flip"] else "",
+                                                                   "otherport" if tag["otherport"] else "", tag["back"])}}
+                evs.append({"e": "RedBegin", "u": u, "nm": r["qn"], "lk": lk, "kind": cls["kind"],
+                            "pending": me in held})
+        elif k == "send" and not r["raw"] and r.get("dns") and r.get("qr"):
+            cls = r["cls"]
+            pl = r.get("payload")
+            if cls["kind"] == "version" and pl and pl[:4] == b"VACK" and len(pl) >= 9:
+                evs.append({"e": "NewSession", "u": pl[8]})
+                continue
+            if cls["kind"] not in ("ping", "data") or pl is None:
+                continue
+            d = None
+            for x in outstanding:
+                if x["src"] == r["dst"] and x["id"] == r["id"] and x["qn"] == r["qn"]:
+                    d = x
+                    break
+            if d is not None:
+                outstanding.remove(d)
+            if cur is not None and d is not None and d["tagged"] and d["step"] == step and \
+               r["dst"] == cur["src"] and r["id"] == cur["id"] and r["qn"] == cur["ev"]["nm"]:
+                cur["ev"]["answered"] = True
+                cur["ev"]["pl"] = pl.hex()
+                continue
+            if len(pl) < 2 or pl[:5] == b"BADIP":
+                continue
+            u = cls["uid"] & 255
+            if last_first == (step, u, r["qn"]):
+                continue        # same answer sent to the remembered duplicate as well
+            last_first = (step, u, r["qn"])
+            evs.append({"e": "AnsFirst", "u": u, "nm": r["qn"],
+                        "lk": wire.qn_str([l.lower() for l in r["labels"]]), "kind": cls["kind"], "pl": pl.hex()})
+    res["stats"]["redeliveries"] = nred
+    return evs
+
+
+ABSTRACT["C16"] = abs_c16
